@@ -108,7 +108,6 @@ impl MT941 {
 
         verify_parser_complete(&parser)?;
 
-
         Ok(MT941 {
             field_20,
             field_21,
